@@ -3,7 +3,6 @@ package main
 import (
 	"fmt"
 	"go/token"
-	"go/types"
 
 	"golang.org/x/tools/go/ssa"
 )
@@ -190,32 +189,16 @@ func (c *Ctx) pfbFillRule(fn *ssa.Function) {
 	if H == nil {
 		why = "main loop not found"
 	} else {
-		// the loop runs while the caller's buffer has room
+		// the loop runs while the caller's buffer has room: `len(b) > 0` in any spelling, or the
+		// result of a small accessor of the type that keeps track of the buffer (ext_x8.go)
 		ifi, _ := H.Instrs[len(H.Instrs)-1].(*ssa.If)
 		okCond := false
 		if ifi != nil {
-			if m, ok := asCmp(cond{v: ifi.Cond, truth: true}); ok {
-				x, y, op := m.x, m.y, m.op
-				if k, isC := constInt(x); isC && k == 0 {
-					x, y, op = y, x, swapOp(op)
-				}
-				if k, isC := constInt(y); isC && k == 0 && (op == token.GTR || op == token.NEQ) {
-					if call, ok := x.(*ssa.Call); ok {
-						if b, ok := call.Call.Value.(*ssa.Builtin); ok && b.Name() == "len" {
-							if _, isSlice := call.Call.Args[0].Type().Underlying().(*types.Slice); isSlice {
-								okCond = true
-								exit = H.Succs[1]
-							}
-						}
-					}
-				}
-				if k, isC := constInt(y); isC && ((k == 0 && (op == token.LEQ || op == token.EQL)) || (k == 1 && op == token.LSS)) {
-					if call, ok := x.(*ssa.Call); ok {
-						if b, ok := call.Call.Value.(*ssa.Builtin); ok && b.Name() == "len" {
-							okCond = true
-							exit = H.Succs[0]
-						}
-					}
+			if room, ok := roomTest(ifi.Cond, 0); ok {
+				okCond = true
+				exit = H.Succs[1]
+				if !room {
+					exit = H.Succs[0]
 				}
 			}
 		}
